@@ -39,6 +39,8 @@
 #[path = "gen/e_ll_z_parser.rs"] mod e_ll_z_parser;
 #[path = "gen/e_lr_z_grammar_trait.rs"] mod e_lr_z_grammar_trait;
 #[path = "gen/e_lr_z_parser.rs"] mod e_lr_z_parser;
+#[path = "gen/n_ll_grammar_trait.rs"] mod n_ll_grammar_trait;
+#[path = "gen/n_ll_parser.rs"] mod n_ll_parser;
 
 use parol_runtime::{ParolError, Token, parser::parse_tree_type::TreeConstruct};
 
@@ -206,7 +208,7 @@ fn run(v: usize, input: &str) -> Run {
     match r { Ok((ok, leaves, events, shape)) => Run { ok, leaves, events, panicked: false, depth_err: false, shape }, Err(_) => Run { ok: false, leaves: vec![], events: vec![], panicked: true, depth_err: false, shape: vec![] } }
 }
 
-const CLAUSES: [(&str, &str); 13] = [
+const CLAUSES: [(&str, &str); 14] = [
     ("C01 C02 C03 C08 C13 C14 C16 C17 C19 C20", "parse does not panic"),
     ("C01 C03 C08 C13 C14 C16 C17 C20", "acceptance: success iff the input is a sentence of the toy grammar (independent reference recognizer; skipped tokens do not matter)"),
     ("C03 C13 C14 C16", "tree leaves are contiguous, in order, start at 0 and end at the input length"),
@@ -220,6 +222,7 @@ const CLAUSES: [(&str, &str); 13] = [
     ("C19 C20", "depth limit: a limit that is not reached changes nothing; an exceeded limit yields the MaxParsingDepthExceeded error value (or the unlimited outcome), never a panic or another result"),
     ("C02 C03", "every production application triggers exactly one semantic action, in post-order of the derivation tree (children before their production, left to right)"),
     ("C02", "the LL(k) parse tree is the derivation tree of the transformed grammar: every production application is one inner node whose children are that production's right-hand side in order (empty productions included)"),
+    ("C16", "with automatic newline handling switched off and no newline terminal, a line break is unmatched input: in a state without %allow_unmatched the parse must fail"),
 ];
 /// independent recognizer of Start: { Item }; Item: a | b | # | a ; | q r s t | q u
 fn is_item_list(t: &[u16]) -> bool {
@@ -288,6 +291,30 @@ fn check_events(r: &Run, want: &[RTok]) -> Option<usize> {
     None
 }
 
+// ================= third toy grammar: %auto_newline_off, no %allow_unmatched: Pair: 'a' 'b' =================
+mod n_ll_grammar {
+    use crate::n_ll_grammar_trait::NLlGrammarTrait;
+    #[derive(Default)]
+    pub struct NLlGrammar<'t> { _p: std::marker::PhantomData<&'t ()> }
+    impl<'t> NLlGrammarTrait<'t> for NLlGrammar<'t> {}
+}
+/// a sentence of grammar 3: `a` and `b` separated by blanks/tabs only; every other character (a line break included: the
+/// grammar switches automatic newline handling off and declares no newline terminal) is unmatched input, i.e. an error
+fn g3_accepts(s: &str) -> bool {
+    let sig: Vec<char> = s.chars().filter(|c| *c != ' ' && *c != '\t').collect();
+    sig == ['a', 'b']
+}
+const PIECES3: [&str; 6] = ["a", "b", " ", "\n", "?", "\r"];
+/// clause 13 only
+fn check3(input: &str) -> Option<usize> {
+    let inp = input.to_string();
+    let r = std::panic::catch_unwind(move || {
+        let mut col = Collector::default();
+        let mut g = n_ll_grammar::NLlGrammar::default();
+        n_ll_parser::parse_into(&inp, &mut col, "x", &mut g).is_ok()
+    });
+    match r { Err(_) => Some(0), Ok(ok) => if ok != g3_accepts(input) { Some(13) } else { None } }
+}
 // ================= second toy grammar: nested expressions (LL(1) / LALR(1), full tree and trimmed) =================
 const G2_VARIANTS: [&str; 12] = ["expr LL(k)", "expr LALR(1)", "expr LL(k) trimmed", "expr LALR(1) trimmed", "expr LL(k) depth limit 1000", "expr LALR(1) depth limit 1000", "expr LL(k) depth limit 3", "expr LALR(1) depth limit 4", "expr LL(k) depth limit 3 trimmed", "expr LALR(1) depth limit 4 trimmed", "expr LL(k) depth limit 0", "expr LALR(1) depth limit 0"];
 const NUM: u16 = 5; const PLUS: u16 = 6; const OPEN: u16 = 7; const CLOSE: u16 = 8; const ERR2: u16 = 9;
@@ -527,6 +554,17 @@ fn main() {
             }
             if p.len() < maxlen + 1 { for i in 0..PIECES2.len() { let mut q = p.clone(); q.push(i); stack.push(q); } }
         }
+        // third grammar (C16 only): inputs of up to maxlen + 1 pieces
+        if prop == "C16" || prop == "all" {
+            let mut stack: Vec<Vec<usize>> = vec![vec![]];
+            while let Some(p) = stack.pop() {
+                let input: String = p.iter().map(|i| PIECES3[*i]).collect();
+                cases += 1;
+                PROGRESS.fetch_add(1, std::sync::atomic::Ordering::Relaxed);
+                if let Some(ci) = check3(&input) { if first[ci].is_none() { first[ci] = Some(format!("{{\"g\":3,\"v\":0,\"chars\":[{}]}}", esc(&input))); } }
+                if p.len() < maxlen + 1 { for i in 0..PIECES3.len() { let mut q = p.clone(); q.push(i); stack.push(q); } }
+            }
+        }
         let mut bad = false;
         for (ci, (p, c)) in CLAUSES.iter().enumerate() {
             if !(prop == "all" || p.split(' ').any(|x| x == prop)) { continue; }
@@ -548,6 +586,12 @@ fn main() {
         let v: usize = if let Some(p) = s.find("\"v\":") { s[p + 4..].chars().take_while(|c| c.is_ascii_digit()).collect::<String>().parse().unwrap() } else if s.contains("\"lr\":true") { 1 } else { 0 };
         let cs = &s[s.find("\"chars\"").unwrap()..];
         let input: String = cs.split(|c: char| !c.is_ascii_digit()).filter(|x| !x.is_empty()).map(|x| char::from_u32(x.parse().unwrap()).unwrap()).collect();
+        if s.contains("\"g\":3") {
+            let cs = &s[s.find("\"chars\"").unwrap()..];
+            let input: String = cs.split(|c: char| !c.is_ascii_digit()).filter(|x| !x.is_empty()).map(|x| char::from_u32(x.parse().unwrap()).unwrap()).collect();
+            println!("input {:?} with the LL(k) parser of grammar 3 (%auto_newline_off)", input);
+            match check3(&input) { Some(ci) => { println!("REPRODUCED on the real crates: violated `{}`", CLAUSES[ci].1); std::process::exit(1) } None => { println!("the recorded input satisfies all clauses on the current tree"); return; } }
+        }
         let g2 = s.contains("\"g\":2");
         println!("input {:?} with the {} parser", input, if g2 { G2_VARIANTS[v] } else { VARIANTS[v] });
         match if g2 { check2(v, &input) } else { check(v, &input) } {
